@@ -65,6 +65,8 @@ pub struct GraphEngine {
     published_node_labels: RwLock<Arc<Vec<Vec<LabelId>>>>,
     write_lock: Mutex<()>,
     next_txid: AtomicU64,
+    /// Lower bound for `WriteTxn::fresh_external_id` (in memory only; uniqueness never depends on it).
+    next_fresh_external_id: AtomicU64,
     next_segment_id: AtomicU64,
     manifest_epoch: AtomicU64,
     checkpoint_txid: AtomicU64,
@@ -141,6 +143,7 @@ impl GraphEngine {
             published_node_labels: RwLock::new(Arc::new(node_labels_snapshot)),
             write_lock: Mutex::new(()),
             next_txid: AtomicU64::new(state.max_txid.saturating_add(1).max(1)),
+            next_fresh_external_id: AtomicU64::new(1),
             next_segment_id: AtomicU64::new(max_seg_id.saturating_add(1).max(1)),
             manifest_epoch: AtomicU64::new(state.manifest_epoch),
             checkpoint_txid: AtomicU64::new(state.checkpoint_txid),
@@ -799,6 +802,23 @@ impl<'a> WriteTxn<'a> {
         self.created_nodes
             .push((external_id, label_id, internal_id));
         Ok(internal_id)
+    }
+
+    /// Picks an external id for a node whose creator has none of its own (Cypher CREATE / MERGE).
+    ///
+    /// `hint` is clock-derived and may repeat when the clock stalls or steps back, so it is only a
+    /// starting point: the result is the first id at or after it that no node of the database and no
+    /// node of this transaction has.  `0` is skipped because the I2E table uses it for "no external id".
+    pub fn fresh_external_id(&mut self, hint: ExternalId) -> ExternalId {
+        let floor = &self.engine.next_fresh_external_id;
+        let mut id = hint.max(floor.load(Ordering::Relaxed)).max(1);
+        while self.created_external_ids.contains(&id)
+            || self.engine.lookup_internal_id(id).is_some()
+        {
+            id = id.wrapping_add(1).max(1);
+        }
+        floor.store(id.wrapping_add(1), Ordering::Relaxed);
+        id
     }
 
     pub fn add_node_label(&mut self, node: InternalNodeId, label_id: LabelId) -> Result<()> {
